@@ -41,7 +41,9 @@ def eval_gas(case):
     viol, mus, rb = [], [], []
     M, R = 28.964 * g, 10.73159
     out = set()
-    ps = [float(p) for p in case["pressures"] if p / ppc <= 30]
+    # the table pressures plus the upper part of the correlation's range, p_r = 22 .. 30
+    ps = [float(p) for p in list(case["pressures"]) + [round(f * ppc, 3) for f in (22.0, 26.0, 30.0)] if p / ppc <= 30]
+    ps = sorted(set(ps))
     for p in ps:
         c = dict(case, p=p)
         z = gas.z_factor_DAK(T, p, tpc, ppc)
@@ -102,8 +104,8 @@ def eval_oil(case):
 
     T, api, g, gor = case["T"], case["api"], case["gravity"], case["gor"]
     pb = oil.pressure_bubblepoint_Standing(T, api, g, gor)
-    if not pb > 50:
-        return {"violations": [], "outcome": "bubble-point<=50", "evals": 0}
+    if not pb > 0:  # the quantifier is "positive bubble point" (light, low-GOR oils have p_b of a few psia)
+        return {"violations": [], "outcome": "bubble-point<=0", "evals": 0}
     so = 141.5 / (131.5 + api)
     viol, vals = [], []
     for f in list(case["fractions"]) + [q / pb for q in case.get("absolute", [])]:
@@ -184,7 +186,7 @@ def cases(tier, seed):
     off = seed_offset(seed)
     gravs = [0.55, 0.7, 0.9, 1.2] + ([0.6, 0.8, 1.0] if thorough else [])
     # 60 F with 14.7 psia in the pressure list is exactly the default standard state
-    temps = [60.0, 80.0, 150.0, 250.0, 400.0] + ([115.0, 200.0, 325.0] if thorough else [])
+    temps = [60.0, 80.0, 150.0, 250.0, 400.0, 550.0, 650.0] + ([115.0, 200.0, 325.0] if thorough else [])
     pgas = list(P_GAS) + ([25, 200, 450, 800, 1500, 2500, 4000, 6500, 9500, 12500] if thorough else [])
     if seed:
         gravs.append(round(0.55 + 0.65 * off, 4))
@@ -196,7 +198,7 @@ def cases(tier, seed):
         out.append({"phase": "gas", "gravity": g, "T": T, "contaminants": list(cont), "dryness": dry,
                     "pressures": sorted(pgas)})
     apis = [12.0, 35.0, 55.0] + ([20.0, 45.0] if thorough else [])
-    for T, api, g, gor in itertools.product([80.0, 200.0, 350.0], apis, [0.56, 0.8, 1.3], [20.0, 650.0, 2500.0]):
+    for T, api, g, gor in itertools.product([80.0, 200.0, 350.0], apis, [0.56, 0.8, 1.3], [5.0, 20.0, 650.0, 2500.0]):
         out.append({"phase": "oil", "T": T, "api": api, "gravity": g, "gor": gor,
                     "fractions": [0.1, 0.5, 0.9, 1.0, 1.5, 2.5], "absolute": [5.0, 14.7, 15.0]})
     for T in ([150.0, 300.0] + ([80.0, 400.0] if thorough else [])):
@@ -204,7 +206,7 @@ def cases(tier, seed):
                     "gases": [[0.6, [0.0, 0.0, 0.0], "dry gas"], [0.8, [0.03, 0.012, 0.018], "wet gas"],
                               [0.6, [0.0, 0.0, 0.0], "wet gas"], [1.0, [0.0, 0.05, 0.0], "dry gas"]]})
     sal = [0.0, 0.05, 0.5, 1.0, 2.0, 5.0, 15.0, 25.0] + ([round(25 * off, 3), round(off, 4)] if seed else [])
-    for T, p, S in itertools.product([60.0, 200.0, 400.0], [14.7, 2000.0, 10000.0], sal):
+    for T, p, S in itertools.product([60.0, 200.0, 400.0], [14.7, 2000.0, 10000.0, 12000.0, 14000.0, 20000.0], sal):
         out.append({"phase": "water", "T": T, "p": p, "salinity": S})
     return out
 
